@@ -90,7 +90,7 @@ def ensure_facts(cfgs=('ws',)):
                 if os.path.isdir(os.path.join(FACTS_ROOT, x))]
         dirs.sort(key=lambda p: os.path.getmtime(p), reverse=True)
         os.utime(d, None)
-        for old in dirs[4:]:
+        for old in dirs[10:]:
             if old != d:
                 shutil.rmtree(old, ignore_errors=True)
     finally:
